@@ -29,8 +29,13 @@ FChoices(s, i) == FaultsOf(s[i].kind, s[i].parent = 0) \ (IF i = 1 THEN AllClass
 
 NoFault(s) == [i \in DOMAIN s |-> "none"]
 Singles(s) == UNION {{[NoFault(s) EXCEPT ![i] = f] : f \in FChoices(s, i) \ {"none"}} : i \in DOMAIN s}
+\* pairs: the call-numbered read faults and the on-disk swaps are represented by a few members each
+\* (every member appears in the single-fault scripts)
+PairClasses == (AllClasses \ (ReadCallClasses \cup SwapClasses))
+               \cup {"read_k2_once_short", "read_k2_once_whole", "read_k3_pers_short", "swap_symlink_same", "swap_file"}
+PChoices(s, i) == (FChoices(s, i) \cap PairClasses) \ {"none"}
 Pairs(s)   == UNION {UNION {{[NoFault(s) EXCEPT ![i] = f, ![j] = g] :
-                               f \in FChoices(s, i) \ {"none"}, g \in FChoices(s, j) \ {"none"}}
+                               f \in PChoices(s, i), g \in PChoices(s, j)}
                             : j \in {k \in DOMAIN s : k > i}} : i \in DOMAIN s}
 
 RECURSIVE AncFault(_, _, _)
@@ -60,6 +65,9 @@ ASSUME PrintT(<<"VERIF_SCRIPTS", Cardinality(Scripts)>>)
 ASSUME \E x \in Scripts : x.exp_status = 0 /\ x.group = "single"
 ASSUME \E x \in Scripts : x.exp_status = 3
 ASSUME \E x \in Scripts : x.exp_status = 99
+ASSUME \E x \in Scripts : x.group = "single" /\ \E i \in DOMAIN x.fault : x.fault[i] = "read_k2_once_short"
+ASSUME \E x \in Scripts : x.group = "single" /\ \E i \in DOMAIN x.fault : x.fault[i] = "swap_symlink_same" /\ x.kind[i] = "dir"
+ASSUME Cardinality(ReadCallClasses) = 12
 ASSUME LET it == Items(Big6, <<"none", "none", "readdir_err", "read_eio", "none", "none">>)
        IN ReadableItems(it) = {1, 2, 6} /\ MustBeIncomplete(it) /\ ~it[4].delivered
 
